@@ -32,6 +32,7 @@ def rules(ctx):
     c182(ctx)
     c183(ctx)
     c184(ctx)
+    c185(ctx)
 
 
 def c181(ctx):
@@ -270,3 +271,144 @@ def c184(ctx):
             w = edges.get((c[0], c[1 % len(c)]), [("?", "?", "?")])[0]
             ctx.violate(R, w[0], "cycle " + "->".join(c), "lock-order cycle %s (first edge at %s via %s)" % (" -> ".join(c + [c[0]]), w[1], w[2]))
     ctx.ok(R, "sync42", "lock-order graph: %d edges, %d cycles examined" % (len(edges), len(cyc)))
+
+
+# ------------------------------------------------------------------------------------------------
+# C18.5 wait discipline (lost wake-ups)
+
+CV_WAIT = r"std::sync::(poison::)?(condvar::)?Condvar::wait(_while|_timeout|_timeout_while)?$"
+
+
+def _on_cycle(f, pt):
+    return P.reach(f, P.after(f, pt), [pt]) is not None
+
+
+def wait_kind(ctx, g, depth=3, seen=None):
+    """None if g never blocks on a condition variable; 'plain' if it returns after any single wake-up (no Condvar::wait
+    of g or of what it calls inside sync42 sits on a loop); ('filtered', [(fn, point)]) if some wait is re-entered until
+    a private predicate changes."""
+    seen = seen or set()
+    if g.key in seen or depth < 0:
+        return None
+    seen = seen | {g.key}
+    kind = None
+    filt = []
+    for b, t in g.calls():
+        ck = callee_skey(t) or ""
+        pt = P.term_pt(g, b.idx)
+        if re.search(CV_WAIT, ck):
+            if "_while" in ck or _on_cycle(g, pt):
+                filt.append((g, pt))
+            kind = kind or "plain"
+            continue
+        for k in ctx.prog.targets(t):
+            h = ctx.prog.fns.get(k)
+            if h is None or h.crate != "sync42":
+                continue
+            r = wait_kind(ctx, h, depth - 1, seen)
+            if r is None:
+                continue
+            if r != "plain":
+                # the callee itself filters; (a plain callee called in a loop of g is g's own predicate loop, judged at g's callers)
+                filt += r[1]
+            elif _on_cycle(g, pt) and g.skey.startswith(WL):
+                filt.append((g, pt))
+            kind = kind or "plain"
+    if filt:
+        return ("filtered", filt)
+    return kind
+
+
+def predicate_fields(g, pt):
+    """Fields read between a wake-up and the decision to wait again (the loop around a Condvar::wait at pt)."""
+    out = set()
+    for b in g.blocks:
+        if P.reach(g, P.after(g, pt), [(b.idx, 0)]) is None or P.reach(g, [(b.idx, 0)], [pt]) is None:
+            continue
+        t = b.term
+        if t["t"] == "call":
+            for a in t["args"]:
+                for s_ in P.origins(g, a):
+                    if s_["k"] == "field":
+                        out.add((s_["owner"], s_["f"]))
+    return out
+
+
+def c185(ctx):
+    R = "C18.5"
+    ctx.declare(R, "no lost wake-up by construction: a wait that filters wake-ups by a private predicate is only used where every "
+                   "writer of that predicate holds the mutex the waiter sleeps with; any other wait returns on every notification and "
+                   "sits in a loop that re-reads the shared state")
+    # classification sanity (positive examples evaluated on every run)
+    nw = ctx.fn(R, WL + "Waiter::naked_wait")
+    ws = ctx.fn(R, WL + "Waiter::wait_for_store")
+    if nw:
+        ctx.check(R, nw, "classify", wait_kind(ctx, nw) == "plain", "Waiter::naked_wait returns after any single notification", "Waiter::naked_wait no longer returns after one wake-up")
+    pred = set()
+    if ws:
+        k = wait_kind(ctx, ws)
+        ctx.check(R, ws, "classify", isinstance(k, tuple), "Waiter::wait_for_store re-waits until its private predicate changes",
+                  "Waiter::wait_for_store is no longer recognised as a filtering wait")
+        if isinstance(k, tuple):
+            for (g, pt) in k[1]:
+                pred |= {x for x in predicate_fields(g, pt) if x[0].endswith("Waiter")}
+        ctx.check(R, ws, "predicate", ("sync42::wait_list::Waiter", "seq_no") in pred, "its predicate is Waiter.seq_no", "predicate of wait_for_store not identified: %s" % sorted(pred))
+    # writers of the predicate inside the wait list, lifted to the public API
+    writers = set()
+    for g in ctx.prog.fns.values():
+        if g.crate != "sync42" or not g.skey.startswith(WL):
+            continue
+        for b, t in g.calls():
+            ck = callee_skey(t) or ""
+            if re.search(r"Atomic\w*::(store|fetch_\w+|swap|compare_exchange\w*)$", ck) and t["args"]:
+                if any((s_["k"] == "field" and (s_["owner"], s_["f"]) in pred) for s_ in P.origins(g, t["args"][0])):
+                    writers.add(g.skey)
+    changed = True
+    while changed:
+        changed = False
+        for g in ctx.prog.fns.values():
+            if g.crate == "sync42" and g.skey.startswith(WL) and g.skey not in writers:
+                if any((callee_skey(t) or "") in writers for _b, t in g.calls()):
+                    writers.add(g.skey)
+                    changed = True
+    ctx.check(R, "sync42::wait_list", "predicate-writers", WL + "WaitGuard::store" in writers, "seq_no is advanced by WaitGuard::store (%d functions)" % len(writers),
+              "writers of the wait_for_store predicate not found")
+    # users
+    n_wait = 0
+    users = [f for f in ctx.prog.fns.values() if f.crate in ("sync42", "lsmtk", "sst") and not f.skey.startswith(WL)]
+    for f in sorted(users, key=lambda f: f.key):
+        h = None
+        for b, t in f.calls():
+            ck = callee_skey(t) or ""
+            if not ck.startswith(WL + "WaitGuard::"):
+                continue
+            tg = ctx.prog.fns.get(t.get("callee") or "") or next((x for x in ctx.prog.fns.values() if x.skey == ck), None)
+            if tg is None:
+                continue
+            k = wait_kind(ctx, tg)
+            if k is None:
+                continue
+            n_wait += 1
+            pt = P.term_pt(f, b.idx)
+            h = h or P.held(ctx.prog, f)
+            if k == "plain":
+                ctx.check(R, f, "wait-in-loop", _on_cycle(f, pt), "%s is re-entered in a loop that re-reads the shared state after every wake-up" % P.short(ck),
+                          "%s is called outside a loop: a wake-up for another reason is taken for the awaited event" % P.short(ck), pt=pt)
+                continue
+            # filtering wait: the lock of the guard it sleeps with must be held by every writer of its predicate in this function
+            gl = set()
+            for a in t["args"][1:]:
+                if a.get("k") in ("copy", "move") and P.is_guard_ty(f.locals[a["pl"]["l"]]):
+                    for s_ in P.origins(f, a):
+                        if s_["k"] == "call" and re.search(r"(Mutex|RwLock).*::(lock|read|write)$", s_["callee"]):
+                            for fs in P.origins(f, s_["t"]["args"][0]):
+                                if fs["k"] == "field" and re.search(r"(Mutex|RwLock)<", fs.get("ty") or ""):
+                                    gl.add("%s.%s" % (P.short_ty(fs["owner"]), fs["f"]))
+            stores = [P.term_pt(f, b2.idx) for b2, t2 in f.calls() if (callee_skey(t2) or "") in writers]
+            bad = [q for q in stores if not (gl and gl <= h.locks_at(q, must=True))]
+            ctx.check(R, f, "filtered-wait", not bad and bool(gl),
+                      "%s: every store that advances its predicate in this function holds %s" % (P.short(ck), sorted(gl)),
+                      "%s sleeps with %s until the slot's sequence number changes, but %d store(s) in this function advance it without holding that mutex "
+                      "(first at %s): a store can land between the caller's last look at the slot and the snapshot, and the later notify_head wake-ups are "
+                      "filtered out -- the caller sleeps forever" % (P.short(ck), sorted(gl) or "an unidentified mutex", len(bad), P.pt_loc(f, bad[0]) if bad else "-"), pt=pt)
+    ctx.floor(R, "blocking WaitGuard calls in users", n_wait, 4)
